@@ -278,6 +278,7 @@ class World:
             return     # nothing a reader of the status files could tell apart from the previous lock-free instant
         self.last_status[d] = key
         st["rows"] = project.names_with_rows(d)
+        st["idb"] = sorted(self._bnum(h) for h in st.get("ids", []))      # the recorded HPC ids as batch numbers
         self.ev(e="status", pid=p.pid if p else 0, dir=self._dname(d), **st)
 
     def _csv_lock_held(self, top):
